@@ -171,7 +171,14 @@ theorem signedMul_spec (I J : Interval) (hI : I.WF) (hJ : J.WF) (hw : J.w = I.w)
   unfold Interval.signedMul
   split
   · exact htop
-  · simp only
+  · split
+    · -- both singletons: the exact (wrapping) product
+      rename_i hs
+      have hxs : x = I.start := by omega
+      have hys : y = J.start := by omega
+      subst hxs hys
+      exact ⟨(Interval.mem_single _ _ _).mpr rfl, Interval.wf_single _ hw0 _ (wrap_inRange I.w hw0 _), rfl⟩
+    simp only
     split
     · exact htop
     · rename_i hflags
